@@ -265,7 +265,7 @@ class Ctx:
         r.dfsr.value = 0xFFFFFFFF
         r.dfar = 0xDEADBEEC
         r.mair0 = 0xFF440400
-        r.mair1 = 0x00000000
+        r.mair1 = 0x00FF4404          # idx4 Device, idx5 Normal NC, idx6 Normal WB, idx7 Strongly-ordered
         r.vbar.value = 0x00000200
         r.cpsr.value = 0x000001D3
         for i in range(13):
@@ -810,7 +810,7 @@ def ld_shard(res, ctx, tier, t0sz):
             if aptable and leaf == 1:
                 continue
             k += 1
-            nsb, nstable, attridx, ee = k & 1, (k >> 1) & 1, rot(k, 4), (k >> 2) & 1
+            nsb, nstable, attridx, ee = k & 1, (k >> 1) & 1, rot(k, 8), (k >> 2) & 1
             ns, pid = (k >> 3) & 1, 5 * ((k >> 4) & 1)
             epd = (0, 0)
             inv_form = (k >> 5) & 1
